@@ -65,6 +65,10 @@ def run(ctx):
     ctx.rule("R02.d", "Dynamic set model: Dynamic.__set__ interpreted (instance / class route; a number, a generator, a callable reference resolving to a number or to a generator): generator state is "
                       "attached to the value that was stored when it is a callable, never to the reference itself (a bound method cannot carry it: the assignment would raise after the store "
                       "and the link)", floor=1)
+    ctx.rule("R02.q", "the (un)linking step cannot reject: the closure of Parameter._relink -- Parameters._update_ref, _setup_refs and whatever else they call on the namespace -- contains no raise "
+                      "statement and never re-enters the setter (update / _update / setattr / _validate); it runs after the value was stored and after the old source watchers were removed, so "
+                      "a rejection there leaves the value changed, nobody notified and every link of the object dead (not followed: the module helper extract_dependencies, whose resolution "
+                      "already ran in _resolve_ref before the store)", floor=3)
     ctx.rule("R02.m", "setter model: Parameter.__set__ interpreted abstractly on every combination (576) of route x constant/readonly x validation outcome x identity x reference mode x watchers x batching agrees with the specification of this property (see checks/setter_model.py)", floor=1)
     ctx.rule("R02.u", "update model: Parameters._update interpreted abstractly (entry batching flag x key orders incl. an Event key x a rejected or unknown key at every position x a value identical to the current one, 60 cases): flag restored, flush exactly once iff outermost and after the restore, keys applied in order up to the failing one, Event mode and reset, complete previous-values mapping", floor=1)
     ctx.not_decided += ["that callees are effect-free before their own raises (Composite._post_setter assigns constituents one by one)",
@@ -235,6 +239,39 @@ def run(ctx):
 
     from checks.shared import dynamic_set_model
     dynamic_set_model(ctx, "R02.d")
+
+    # R02.q: the linking step does not reject
+    PARAMS_Q = "param.parameterized.Parameters"
+    start = ctx.repo.method(PARAMETER, "_relink")
+    seen, todo, n_q = {start.qualname}, [start], 0
+    while todo:
+        h = todo.pop()
+        n_q += 1
+        me = h.params[0] if h.params else None
+        bad = None
+        for n in ast.walk(h.node):
+            if isinstance(n, ast.Raise):
+                bad = (n, "raises (`%s`)" % norm(n)[:70])
+                break
+            if isinstance(n, ast.Call):
+                nm = n.func.attr if isinstance(n.func, ast.Attribute) else (n.func.id if isinstance(n.func, ast.Name) else None)
+                if nm in ("update", "_update", "setattr", "_validate") and not (isinstance(n.func, ast.Attribute) and isinstance(n.func.value, ast.Name) and n.func.value.id in ("updates", "d", "kwargs")):
+                    bad = (n, "re-enters the setter (`%s`), whose validation may reject" % norm(n)[:70])
+                    break
+                # followed: the namespace of the object being assigned -- `obj.param.<m>` in Parameter._relink, `self_.<m>` inside class Parameters;
+                # registrations on OTHER objects' namespaces (the sources: owner.param._watch / .param.unwatch) are not part of this closure
+                if isinstance(n.func, ast.Attribute) and ((h is start and norm(n.func.value) == "obj.param") or (
+                        isinstance(n.func.value, ast.Name) and n.func.value.id == me and h.cls is not None and h.cls.qualname == PARAMS_Q)):
+                    t = ctx.hier.resolve(PARAMS_Q, n.func.attr)
+                    if t is not None and t.qualname not in seen:
+                        seen.add(t.qualname)
+                        todo.append(t)
+        if bad is None:
+            ctx.ok("R02.q", h, h.node, "%s neither raises nor re-enters the setter" % h.qualname.rsplit(".", 2)[-1])
+        else:
+            ctx.fail("R02.q", h, bad[0], "%s, part of the (un)linking step that Parameter.__set__ runs after storing the value, %s: the assignment fails with the value already changed, "
+                                         "no event sent and the object's source watchers already removed" % (h.qualname, bad[1]), key="%s::link-step-rejects" % h.qualname)
+    ctx.require(n_q >= 3, "the closure of Parameter._relink has fewer than 3 functions (%d)" % n_q)
 
     # model-level rule, run last (see DESIGN §10)
     from checks import setter_model
